@@ -51,7 +51,7 @@ def call(fn, *args, **kw):
         return None, type(ex).__name__
 
 
-def represent(a, key, kinds=("f64", "int", "strided", "f32", "f64")):
+def represent(a, key, kinds=("f64", "int", "strided", "f32", "f64", "fortran", "readonly")):
     """The same numbers in another in-memory representation, chosen by the case id: int64 (only if all
     values are integral), a non-contiguous view, float32 (only if every value is exactly representable).
     Returns (array, name).  The VALUES are unchanged, so every clause of the specification applies as is."""
@@ -63,6 +63,13 @@ def represent(a, key, kinds=("f64", "int", "strided", "f32", "f64")):
         return a.astype(np.int64), "int64"
     if k == "f32" and finite and a.size and np.all(a.astype(np.float32).astype(float) == a):
         return a.astype(np.float32), "float32"
+    if k == "fortran" and a.ndim == 2:
+        # column-major: the transposed view of a C-ordered copy of the transpose (np.ascontiguousarray(x) copies it)
+        return np.ascontiguousarray(a.T).T, "fortran"
+    if k == "readonly":
+        b = a.copy()
+        b.setflags(write=False)
+        return b, "readonly"
     if k == "strided" and a.ndim >= 1 and a.shape[-1] > 0:
         buf = np.zeros(a.shape[:-1] + (2 * a.shape[-1],))
         buf[..., ::2] = a
